@@ -206,6 +206,29 @@ Theorem clone_keeps_original :
 Proof. exact clone_model_spec. Qed.
 Print Assumptions clone_keeps_original.
 
+(* "A clone can always be made": while copy.deepcopy rebuilds a link Endpoint
+   (no 'target' yet) every lookup that reaches Endpoint.__getattr__ -- any
+   name, any recursion limit >= 2 -- ends in AttributeError, never in
+   unbounded recursion; a complete endpoint still answers ordinary names from
+   its target. *)
+Theorem clone_lookup_total :
+  forall fuel th n, (2 <= fuel)%nat ->
+    endpoint_getattr true false th fuel n = AttrErr
+    /\ endpoint_getattr true true th fuel NPlain = (if th then Found else AttrErr).
+Proof.
+  intros fuel th n H. split; [apply clone_lookup_total_l; exact H|].
+  destruct fuel; [lia|reflexivity].
+Qed.
+Print Assumptions clone_lookup_total.
+
+(* Without the guard (the code before a66f8e5) every such lookup exhausts
+   every recursion limit: Client.clone() failed for every client.  Finding
+   C14:clone-recursion, status fixed. *)
+Theorem clone_lookup_unguarded_refuted :
+  forall fuel th n, endpoint_getattr false false th fuel n = Recursion.
+Proof. exact clone_lookup_unguarded_l. Qed.
+Print Assumptions clone_lookup_unguarded_refuted.
+
 (* ---- non-vacuity ---- *)
 Example store0_memo_ok : mok cloc cval VNone (memo_of default_mv) store0.
 Proof. intros x mx H. left. destruct x; cbn in H; try discriminate; reflexivity. Qed.
